@@ -819,11 +819,22 @@ def root_name(t):
 
 
 def range_of(t):
-    """(start, end) of a Range struct term"""
+    """(start, exclusive end) of a Range / RangeInclusive term"""
     if isinstance(t, tuple) and t and t[0] == "struct" and t[1].endswith("ops::Range"):
         d = dict(t[2])
         return d.get("start"), d.get("end")
+    if isinstance(t, tuple) and t and t[0] == "call" and "RangeInclusive" in t[1] and t[1].endswith("::new") and len(t[2]) == 2:
+        return t[2][0], mk_bin("Add", t[2][1], ("lit", "1"))
     return None
+
+
+def strip_upd(t):
+    """drop `upd` wrappers (the value after an unrelated in-place change of one of its parts) for structural comparison"""
+    if isinstance(t, tuple):
+        if t and t[0] == "upd":
+            return strip_upd(t[1])
+        return tuple(strip_upd(x) for x in t)
+    return t
 
 
 def elementwise_sequence(E, val):
